@@ -564,6 +564,7 @@ CORE_CFGS = {
     "batch": (["A", "B"], {"VP_CAP": "3", "VP_CTXPERSIST": "1", "VP_SETUP": "loop2", "VP_MAXPAY": "2"}),
     "stash": (["A", "B"], {"VP_CAP": "2", "VP_CTXPERSIST": "1", "VP_SETUP": "loop2", "VP_MAXPAY": "2"}),
     "kev": (["A", "B"], {"VP_CAP": "2", "VP_CTXPERSIST": "1", "VP_SETUP": "loop2", "VP_NKEYS": "1"}),
+    "kevl": (["A", "B"], {"VP_CAP": "2", "VP_CTXPERSIST": "1", "VP_SETUP": "loop2", "VP_NKEYS": "1"}),
     "tsk": (["A", "B"], {"VP_CAP": "2", "VP_CTXPERSIST": "1", "VP_SETUP": "loop2", "VP_NKEYS": "1", "VP_TASKS": "1"}),
     "become": (["A", "B"], {"VP_CAP": "2", "VP_CTXPERSIST": "1", "VP_SETUP": "loop2", "VP_MAXPAY": "1"}),
 }
@@ -625,7 +626,7 @@ def c15(prop, tier, seed):
 
 @check("C02")
 def c02(prop, tier, seed):
-    return core_check(prop, tier, seed, ["ps2q", "pub2", "bc2"], ["ps2q", "pub2", "bc2", "ps3", "ps2", "batch"],
+    return core_check(prop, tier, seed, ["ps2q", "pub2", "bc2", "batch"], ["ps2q", "pub2", "bc2", "batch", "ps3", "ps2"],
                       "Compared: mailbox lengths, events handed to handlers (payload, sender, topic, system flag), payload release by the library.")
 
 
@@ -643,7 +644,7 @@ def c19(prop, tier, seed):
 
 @check("C13")
 def c13(prop, tier, seed):
-    return core_check(prop, tier, seed, ["batch", "btmo"], ["batch", "btmo"],
+    return core_check(prop, tier, seed, ["batch", "btmo", "kevl"], ["batch", "btmo", "kevl"],
                       "Focus: low/normal/high priority subscriptions, batch sizes, which arrival triggers a handler invocation and with which events.", Dq=7, Dt=9)
 
 
@@ -667,7 +668,7 @@ def c09(prop, tier, seed):
 
 @check("C03")
 def c03(prop, tier, seed):
-    return core_check(prop, tier, seed, ["fdev", "ps2q", "subos", "kev", "tsk"], ["fdev", "ps2q", "subos", "kev", "tsk", "ps3", "pub2"],
+    return core_check(prop, tier, seed, ["fdev", "ps2q", "subos", "kev", "kevl", "tsk"], ["fdev", "ps2q", "subos", "kev", "kevl", "tsk", "ps3", "pub2"],
                       "Focus: events of descriptor / timer / pubsub / signal / path / pid / task sources reach their owner with the registration userdata only while RUNNING; one-shot removal; poll batches of several sources in every order; errno left behind by callbacks; loop ends only on quit / no running module. "
                       "Configurations marked .loop are replayed a second time in loop mode: the loop is driven by blocking m_ctx_loop() calls (top-level steps executed from inside the wrapped epoll_wait, the stopping dispatch being what m_ctx_loop does before returning the quit code) and must show the same deliveries, states and return code.",
                       Dq=5, Dt=7, loop_cfgs=["ps2q", "fdev", "life"])
